@@ -86,6 +86,8 @@ EXC_POOL: Dict[str, Any] = {
     "OSError": OSError,
     "FalsyError": FalsyError,
     "EmptyLenError": EmptyLenError,
+    # what Context.reject() raises: an ordinary failure for the result and for the retry middleware
+    "TaskRejectedError": lambda tok, value: __import__("taskiq.exceptions", fromlist=["x"]).TaskRejectedError(),
 }
 
 
@@ -741,6 +743,8 @@ def build_payload(sc: Scenario, broker: AsyncBroker, m: Dict[str, Any], tok: str
     labels["own"] = tok
     if m.get("timeout") is not None:
         labels["timeout"] = str(m["timeout"]) if m.get("timeout_str") else m["timeout"]
+    if m.get("timeout_raw") is not None:
+        labels["timeout"] = m["timeout_raw"]
     tname = "no_such_task" if kind == "unknown" else m.get("task", "t_async")
     if m.get("raw_labels"):
         # a message from a producer that does not send labels_types (hand-built / older client)
